@@ -100,7 +100,7 @@ class C18(Prop):
     all_branches = ["heal:first", "heal:healed", "heal:degraded", "heal:degraded0", "heal:raise",
                     "swarm:success", "swarm:exhausted", "swarm:none", "swarm:raise", "swarm:collapse",
                     "swarm:steplimit", "tool:plain", "tool:final", "tool:noauto", "tool:answered", "tool:raise",
-                    "heal:live", "tool:live"]
+                    "heal:live", "tool:live", "swarm:reassigned"]
     assumptions = [
         "callbacks (generator, validator, worker factory, worker step, summarizer, provider, tool executor) return "
         "or raise; they do not call back into the loop that is invoking them",
@@ -159,13 +159,14 @@ class C18(Prop):
 
     def _heal_scripts(self, rng, mr, real, fam=None):
         n = max(mr, 0) + 3
-        fam = fam or rng.choice(["never", "atk", "alt", "echo", "raise", "long", "random", "random"])
+        fam = fam or rng.choice(["never", "atk", "alt", "echo", "raise", "long", "random", "random", "reassign"])
         k = rng.randint(0, n)
         if real:
             fs = "A"
             bad = rng.choice("ggeLMbsntKUP")
             gs = {"never": bad, "atk": bad * k + "j", "alt": (bad + "j") * n if k % 2 else ("j" + bad) * n,
                   "echo": "e", "raise": "g" * k + "x", "long": rng.choice("LM") + "e",
+                  "reassign": "".join(rng.choice("ggrRj") for _ in range(n)) + "g",
                   "random": "".join(rng.choice("gggjeLMxbsntKUP") for _ in range(n))}[fam]
         else:
             gs = rng.choice(["g", "g", "e", "ge", "L", "M", "gMe", "j", "".join(rng.choice("gjeLMbsntKUP") for _ in range(n)),
@@ -173,10 +174,12 @@ class C18(Prop):
             inv = rng.choice("IIIWNE")
             val = rng.choice("VVHQZBT")
             fs = {"never": inv, "atk": inv * k + val, "alt": (inv + val) if k % 2 else (val + inv),
-                  "echo": "I", "raise": inv * k + "X", "long": "IW",
+                  "echo": "I", "raise": inv * k + "X", "long": "IW", "reassign": inv * k + rng.choice([val, inv]),
                   "random": "".join(rng.choice("IIIWNEVHQZBTXA") for _ in range(n))}[fam]
             if fam == "alt":
                 fs = ("".join((inv, val)[(i + k) % 2] for i in range(n)))
+            if fam == "reassign":     # the generator itself assigns loop.max_retries (r: = 0, R: += 2) while heal runs
+                gs = "".join(rng.choice("ggrR") for _ in range(n)) + "g"
         return gs or "-", fs or "-"
 
     def _gen_heal(self, rng):
@@ -202,7 +205,7 @@ class C18(Prop):
                 lines.append(f"hset decay {rng.choice(self.DECAYS)}")
             if rng.random() < 0.2:
                 lines.append(f"hset {rng.choice(['gen', 'chap'])} new")
-            fam = rng.choice(["never", "never", "atk", None, None])
+            fam = rng.choice(["never", "never", "atk", "reassign", None, None])
             gs, fs = self._heal_scripts(rng, mr, real, fam)
             lines.append(f"hcall {gs} {fs}")
         return lines
@@ -210,8 +213,17 @@ class C18(Prop):
     def _gen_supervise(self, rng, mreg, ms):
         nsp = max(mreg, 0) + 2
         nst = max(ms, 0) + 2
-        fam = rng.choice(["never", "atk", "same", "two", "near", "raise", "random", "random", "lower"])
+        fam = rng.choice(["never", "atk", "same", "two", "near", "raise", "random", "random", "lower", "reassign"])
         j, k = rng.randint(0, nsp - 1), rng.randint(0, nst - 1)
+        if fam == "reassign":
+            # the callbacks hold the swarm and assign its public budgets while supervise() runs: factory / summarizer
+            # l (max_regenerations = 0) g (+= 1); steps y (max_steps_per_worker = 0) Y (+= 1) z / Z (entropy_threshold
+            # = -1 / 2)
+            fs = "".join(rng.choice("wwwlgg") for _ in range(rng.randint(1, nsp + 2))) + rng.choice("wwwg")
+            ss = ["".join(rng.choice("uuuuayYzZ") for _ in range(rng.randint(1, nst + 2))) + rng.choice("uuuaY")
+                  for _ in range(rng.randint(1, 3))]
+            ms_ = "".join(rng.choice("hhhlg") for _ in range(rng.randint(1, nsp + 1))) + rng.choice("hhhg")
+            return f"supervise {fs} {'|'.join(ss)} {ms_}"
 
         def fill(ch="u"):
             return [ch for _ in range(nsp)]
@@ -288,16 +300,6 @@ class C18(Prop):
             if i % 40 == 39:                      # malformed stream: unknown ops / wrong arity
                 yield {"lines": [rng.choice(["frob 1 2", "heal 3", "supervise w", "tools 1 1 1", "swarm 1", ""])
                                  or "nop", self._gen_heal(rng)], "note": "malformed"}
-                continue
-            if i % 25 == 17:
-                n = rng.randint(1, 6)
-                if rng.random() < 0.5:
-                    line = (f"hre {rng.choice([0, 1, 2, 3, 4])} {''.join(rng.choice('ggrR') for _ in range(n))}g "
-                            f"{rng.choice(['I', 'I', 'IIV', 'IV'])}")
-                else:
-                    line = (f"sre {rng.choice([0, 1, 2, 3])} {rng.choice([0, 1, 2, 3, 4])} "
-                            f"{''.join(rng.choice('wwlL') for _ in range(n))}w {''.join(rng.choice('uuulL') for _ in range(n))}u")
-                yield {"lines": [line], "note": "limits re-assigned by a callback during the call (oracle only)"}
                 continue
             if i % 25 == 7:
                 yield {"lines": [f"retools {rng.choice([0, 1, 2, 3, 4, 5, 6, -1])} {rng.choice([0, 1, 1, 2])} "
@@ -483,15 +485,7 @@ class C18(Prop):
             st["loop"], st["lbox"] = self._new_loop(3, 0.1, False)
         return self._heal_on(st["loop"], st["lbox"], script_of(t[1]), script_of(t[2]))
 
-    def _hre(self, t):
-        """Oracle-only search (like retools): the generator itself re-assigns `loop.max_retries` while heal() is running
-        (item `r`: to 0, `R`: +2).  The property text does not say which value counts then, so the oracle only
-        requires calls <= (largest value the limit held during the call) + 1; the observation is the constant "ok"."""
-        loop, box = self._new_loop(intd(t[1]), 0.1, False)
-        _, info = self._heal_on(loop, box, script_of(t[2]), script_of(t[3]), reassign=True)
-        return "ok", info
-
-    def _heal_on(self, loop, box, gs, fs, reassign=False):
+    def _heal_on(self, loop, box, gs, fs):
         real = box["real"]
         calls = []
         prop = self
@@ -508,7 +502,7 @@ class C18(Prop):
                 rec = {"p": prompt == "P<7>", "ctx": error_context, "out": "x", "fold": "-", "raw": None, "f": None}
                 calls.append(rec)
                 item = pick(gs, i, "g")
-                if reassign and item in "rR":          # the generator itself re-assigns the public limit of the loop that is calling it
+                if item in "rR":          # the generator itself re-assigns the public limit of the loop that is calling it
                     loop.max_retries = box["mr"] = 0 if item == "r" else box["mr"] + 2
                     in_force.append(box["mr"])
                 raw = prop._gen_raw(item, i, error_context)
@@ -604,59 +598,6 @@ class C18(Prop):
             return "bad-op"
         return "ok"
 
-    def _sre(self, t):
-        """Oracle-only search: factory (script 1) and worker steps (script 2) re-assign `max_regenerations` /
-        `max_steps_per_worker` of the swarm that is running them (`l`: to 0, `L`: +1; anything else leaves them).
-        Judged against the largest value each budget held during the call."""
-        mreg, ms = intd(t[1]), intd(t[2])
-        fs, ss = script_of(t[3]), script_of(t[4])
-        prop = self
-        seen = {"mreg": [mreg], "ms": [ms]}
-        spawns = []
-
-        class W:
-            def __init__(self, name):
-                self.id = name
-                self.memory = prop.rs.WorkerMemory()
-
-            def step(self, task):
-                rec = spawns[-1]
-                if rec["steps"] >= CAP:
-                    raise Runaway("step")
-                item = pick(ss, rec["steps"], "u")
-                rec["steps"] += 1
-                if item in "lL":
-                    sw.max_steps_per_worker = 0 if item == "l" else sw.max_steps_per_worker + 1
-                    seen["ms"].append(sw.max_steps_per_worker)
-                return f"out <{rec['steps']}> {len(spawns)}"
-
-        def fac(name, hints):
-            if len(spawns) >= CAP:
-                raise Runaway("factory")
-            item = pick(fs, len(spawns), "w")
-            spawns.append({"name": name, "steps": 0})
-            if item in "lL":
-                sw.max_regenerations = 0 if item == "l" else sw.max_regenerations + 1
-                seen["mreg"].append(sw.max_regenerations)
-            return W(name)
-        sw = self.rs.RegenerativeSwarm(worker_factory=fac, summarizer=lambda mem: [], entropy_threshold=0.9,
-                                       max_steps_per_worker=ms, max_regenerations=mreg, silent=True)
-        exc = None
-        try:
-            sw.supervise("T<7>")
-        except Exception as e:   # noqa
-            exc = e
-        return "ok", {"kind": "sre", "seen": seen, "spawns": spawns, "exc": exc}
-
-    def _oracle_sre(self, info, V):
-        top_r, top_s = max(info["seen"]["mreg"]), max(info["seen"]["ms"])
-        if len(info["spawns"]) > max(0, top_r + 1):
-            V("swarm_workers_le_regen_succ_reassigned", f"<= {max(0, top_r + 1)} workers (largest limit in force + 1)",
-              len(info["spawns"]))
-        for r in info["spawns"]:
-            if r["steps"] > max(0, top_s):
-                V("swarm_steps_le_max_reassigned", f"<= {max(0, top_s)} steps on {r['name']}", r["steps"])
-
     def _supervise(self, st, t):
         fs, ms_ = script_of(t[1]), script_of(t[3])
         ss = [] if t[2] == "-" else [script_of(x) for x in t[2].split("|")]
@@ -679,13 +620,16 @@ class C18(Prop):
                 self.spawn = self.stepi = self.g = self.summ = 0
                 self.last = None
                 self.spawns = []
+                self.mreg = [st["cfg"][0]]       # every value each budget held while this call was running
+                self.ms = [st["cfg"][1]]
 
             def factory(self, name, hints):
-                if len(self.spawns) >= CAP:
-                    raise Runaway("factory")
                 rec = {"name": name, "hints": list(hints), "worker": "x", "steps": [], "raised": False, "summ": "none",
-                       "task_ok": True}
+                       "task_ok": True, "mreg": self.mreg[-1], "ms": None}
+                over = len(self.spawns) >= CAP
                 self.spawns.append(rec)
+                if over:
+                    raise Runaway("factory")
                 item = pick(fs, self.spawn, "w")
                 first = self.spawn == 0
                 self.spawn += 1
@@ -697,12 +641,18 @@ class C18(Prop):
                 else:
                     w = W(name)
                     self.last = w
+                if item in "lg":      # the factory re-assigns the public budget of the swarm that is calling it
+                    sw.max_regenerations = 0 if item == "l" else sw.max_regenerations + 1
+                    self.mreg.append(sw.max_regenerations)
                 rec["worker"] = "w" + "".join(ch for ch in str(w.id) if ch.isdigit())
+                rec["ms"] = [self.ms[-1]]        # the step budget in force when this worker is started (and later values)
                 return w
 
             def step(self, w, task):
                 rec = self.spawns[-1]
                 if len(rec["steps"]) >= CAP:
+                    rec["steps"].append(None)
+                    rec["raised"] = True
                     raise Runaway("step")
                 script = ss[min(self.spawn - 1, len(ss) - 1)] if ss else ""
                 item = pick(script, self.stepi, "u")
@@ -721,6 +671,12 @@ class C18(Prop):
                     out = {"d": f"all done <{g}>", "N": f"terminé ñ 价格 <{g}>", "L": "z" * 3000 + f" <{g}>"}.get(item, f"out <{g}>")
                 rec["steps"].append(out)
                 w.memory.add_attempt(task, out)
+                if item in "yY":
+                    sw.max_steps_per_worker = 0 if item == "y" else sw.max_steps_per_worker + 1
+                    self.ms.append(sw.max_steps_per_worker)
+                    rec["ms"].append(sw.max_steps_per_worker)
+                elif item in "zZ":
+                    sw.entropy_threshold = -1.0 if item == "z" else 2.0
                 return out
 
             def summarize(self, mem):
@@ -733,6 +689,9 @@ class C18(Prop):
                     raise AdvError("summarizer")
                 h = [] if item == "e" else [f"h{i + 10}"]
                 rec["summ"] = ".".join(h) or "-"
+                if item in "lg":
+                    sw.max_regenerations = 0 if item == "l" else sw.max_regenerations + 1
+                    self.mreg.append(sw.max_regenerations)
                 return h
         adv = Adv()
         box["adv"] = adv
@@ -755,7 +714,8 @@ class C18(Prop):
                 + "];[" + ",".join(f"{dig(e.old_worker_id)}>{dig(e.new_worker_id)}:{hs(e.injected_summary)}"
                                    for e in sw._regeneration_events) + "]")
         info = {"kind": "swarm", "cfg": st["cfg"], "spawns": adv.spawns, "res": res, "exc": exc,
-                "stale": list(box["stale"])}
+                "stale": list(box["stale"]), "mreg_seen": list(adv.mreg), "ms_seen": list(adv.ms)}
+        st["cfg"] = (adv.mreg[-1], adv.ms[-1])        # what the callbacks assigned stays assigned
         if exc is not None:
             r = "raise" if isinstance(exc, AdvError) else f"raise:{type(exc).__name__}"
         else:
@@ -1038,10 +998,6 @@ class C18(Prop):
                 o = self._sset(st, t)
             elif len(t) == 4 and t[0] == "retools":
                 o, info = self._retools(t)
-            elif len(t) == 4 and t[0] == "hre":
-                o, info = self._hre(t)
-            elif len(t) == 5 and t[0] == "sre":
-                o, info = self._sre(t)
             else:
                 o = "bad-op"
             obs.append(o)
@@ -1067,8 +1023,6 @@ class C18(Prop):
                 self._oracle_swarm(info, V)
             elif info["kind"] == "retools":
                 self._oracle_retools(info, V)
-            elif info["kind"] == "sre":
-                self._oracle_sre(info, V)
             else:
                 self._oracle_tools(info, V)
         return out
@@ -1125,11 +1079,20 @@ class C18(Prop):
 
     def _oracle_swarm(self, info, V):
         (mreg, ms), spawns, res = info["cfg"], info["spawns"], info["res"]
-        if len(spawns) > max(0, mreg + 1):
-            V("swarm_workers_le_regen_succ", f"<= {max(0, mreg + 1)} workers", len(spawns))
+        # judged by the limits in force at that moment: worker number i+1 may be spawned only while the limit allows
+        # i+1 workers; without assignments by the callbacks this is "<= max_regenerations + 1 workers"
+        top = max(info.get("mreg_seen") or [mreg])
+        if len(spawns) > max(0, top + 1):
+            V("swarm_workers_le_regen_succ", f"<= {max(0, top + 1)} workers", len(spawns))
+        for i, r in enumerate(spawns):
+            if i > r.get("mreg", mreg):
+                V("swarm_workers_le_regen_succ", f"worker {i + 1} only while max_regenerations >= {i}",
+                  f"max_regenerations was {r.get('mreg', mreg)}")
+                break
         for r in spawns:
-            if len(r["steps"]) > max(0, ms):
-                V("swarm_steps_le_max", f"<= {max(0, ms)} steps on worker {r['name']}", len(r["steps"]))
+            lim = max(r.get("ms") or [ms])      # the largest step budget in force while this worker lived
+            if len(r["steps"]) > max(0, lim):
+                V("swarm_steps_le_max", f"<= {max(0, lim)} steps on worker {r['name']}", len(r["steps"]))
         if res is None:
             return
         if res.success:
